@@ -123,4 +123,28 @@ def walkPara (steps goAll : String) : String := Id.run do
       | none => pure ()
   return verdict
 
+/-- C17 on the program shape  edit t o0 ; X(0, o) ; withopts(0, o) ; X(2, =) ; X(0, mixture) -/
+def optionsVerdict (steps goAll : String) : String :=
+  let gs := (goAll.splitOn ";").map parseObs
+  match gs with
+  | [.ed _ o0 _ _, .ed t1 o1 _ _, .ed _ _ _ _, .ed t3 _ _ _, .ed t4 _ _ _] =>
+    if t1 != t3 then "fail:C17 XOpts(args, o) and WithOptions(o).X(args) give different text"
+    else if o1 != o0 then "fail:C17 XOpts changed the Options stored on the returned Editor"
+    else if t1 != t4 then "fail:C17 explicit defaults and unset fields give different text"
+    else "ok"
+  | _ => if (goAll.splitOn "X~").length > 1 then "skip:error" else "skip:shape"
+
+def withDefaultsVerdict (go : String) : String :=
+  match go.splitOn ";" with
+  | [a, b] =>
+    let prep := match parseOpts a with
+      | some o => o.charset.any fun r => classOf r == Cls.prepend
+      | none => false
+    let tag := if prep then " (the table character set contains a Prepend character)" else ""
+    if a != b then "fail:C17 WithDefaults is not idempotent" ++ tag
+    else match parseOpts a with
+      | some o => if (clusters cxA o.charset).length == 3 then "ok" else "fail:C17 WithDefaults table character set is not three clusters" ++ tag
+      | none => "skip:parse"
+  | _ => "skip:shape"
+
 end RosedVerif.Driver
